@@ -121,7 +121,10 @@ def gen_nongauss_inputs(r, n):
             ops.append({"op": "Catstate", "p": [rnd(r, 0.4, 1.6), rnd(r, 0, 3.1), r.choice([0, 1])],
                         "kw": {"representation": rep}, "m": [m]})
         elif x < 0.5:
-            ops.append({"op": "Fock", "p": [r.choice([1, 1, 2])], "m": [m]})
+            # Fock(2) as a difference of Gaussians has weights ~1e5: at most one, and only next to no other non-Gaussian input
+            ops.append({"op": "Fock", "p": [2 if (not ops and r.random() < 0.25) else 1], "m": [m]})
+            if ops[-1]["p"][0] == 2:
+                break
         elif x < 0.55 and n <= 2 and not ops and r.random() < 0.3:
             ops.append({"op": "GKP", "p": [[rnd(r, 0, 3.1), rnd(r, 0, 3.1)], rnd(r, 0.3, 0.4)], "m": [m]})
             break
@@ -334,12 +337,30 @@ class DyneOracle:
                     self.cur["y"] = np.array([float(select), None], dtype=object)
                 else:
                     self.cur["y"] = np.array([2 * complex(select).real, 2 * complex(select).imag])
+            if select is not None and len(pre.w) > 1:
+                # a post-selected value is dictated by the program, not by the scheduler: when its density is (nearly) zero - the centre of
+                # a Fock state, a zero of a cat-state fringe - conditioning on it is ill-posed (the library divides by ~0); not a case to decide
+                yy = np.array([float(self.cur["y"][0]), float(np.real(ref.mean_cov()[0][1]))]) if kind == "hom" else np.array(self.cur["y"], dtype=float)
+                base = np.real(ref.muB[:: max(1, len(ref.muB) // 32)])
+                sg = np.sqrt(np.clip(np.real(np.diagonal(ref.S[0])), 1e-12, None))
+                pts = []
+                for p_ in base:
+                    for dx in (0.0, 1.0, -1.0, 2.0, -2.0):
+                        for dp in ((0.0,) if kind == "hom" else (0.0, 1.0, -1.0)):
+                            pts.append([p_[0] + dx * sg[0], yy[1] if kind == "hom" else p_[1] + dp * sg[1]])
+                top = float(np.max(np.real(ref.density_many(np.array(pts)))))
+                if float(np.real(ref.density(yy))) < 1e-2 * top:
+                    self.cur["skip"] = True
+                    self.w.probes["skipped_near_zero_density_postselection"] += 1
             self.w.log("measure", kind=kind, mode=mode, phi=phi, select=select is not None, peaks=len(pre.w))
             return
         # ---- post
         cur, self.cur = self.cur, None
         self.n_meas += 1
         if cur is None:
+            return
+        if cur.get("skip"):
+            self.results.append({"kind": cur["kind"], "mode": cur["mode"], "value": None, "skipped": True})
             return
         post = rm.snapshot(be.state(), sf.hbar)
         y = cur["y"]
@@ -422,10 +443,11 @@ class DyneOracle:
         ub = cap.get("ub")
         if pdf is None or ub is None:
             raise HarnessError("rejection loop did not use the spy as expected: %s" % cap)
-        if abs(pdf - dens) > 1e-7 * max(1.0, abs(dens)) or abs(pdf.imag) > 1e-8 * max(1.0, abs(pdf)):
+        cancel = 1e-15 * ref.abs_density(x)  # double-precision rounding of a sum with cancelling terms (Fock states: 10+ digits cancel)
+        if abs(pdf - dens) > 1e-7 * max(1.0, abs(dens)) + cancel or abs(pdf.imag) > 1e-8 * max(1.0, abs(pdf)) + cancel:
             self.w.violation("born", "bosonic-density-at-proposal", {"x": x, "library": pdf, "reference": dens, "kind": cur["kind"]}, feats)
             raise Violation("born", "bosonic-density-at-proposal", "stop")
-        if dens.real > ub.real * (1 + 1e-9) + 1e-12:
+        if dens.real > ub.real * (1 + 1e-9) + 1e-12 + cancel:
             self.w.violation("born", "bosonic-envelope-below-density", {"x": x, "density": dens.real, "envelope": ub.real}, feats)
             raise Violation("born", "bosonic-envelope-below-density", "stop")
         # envelope must be a constant multiple of the proposal density  sum_j p_j N(x; Re mu_j, S_j)  the loop draws from
@@ -627,6 +649,8 @@ def run_dyne(script, w, backend, collect=None):
     if len(oracle.results) != len(script["meas"]):
         w.violation("collation", "number-of-measurement-events", {"events": len(oracle.results), "measurements": len(script["meas"])}, feats)
         return None, oracle, None
+    if any(rr.get("skipped") for rr in oracle.results):
+        return res, oracle, prog
     want = {}
     for me, rr in zip(script["meas"], oracle.results):
         v = rr["value"] * s if rr["kind"] == "hom" else rr["value"]
